@@ -147,6 +147,11 @@ func decodeProtobufSignDoc(signDocBytes []byte) (apitypes.TypedData, error) {
 		return apitypes.TypedData{}, fmt.Errorf("invalid number of signer infos provided, expected 1 got %v", len(authInfo.SignerInfos))
 	}
 
+	// The fee payer and granter are not part of the typed data: a sign doc that names one is not covered by the signature
+	if authInfo.Fee == nil || authInfo.Fee.Payer != "" || authInfo.Fee.Granter != "" {
+		return apitypes.TypedData{}, errors.New("auth info contains unsupported fields: Fee.Payer or Fee.Granter")
+	}
+
 	// Validate payload messages
 	msgs := make([]sdk.Msg, len(body.Messages))
 	for i, protoMsg := range body.Messages {
